@@ -245,6 +245,27 @@ def e2e(rep, tier, seed):
             meta.append((pid, "gap", gl, [(gl, gl)], its))
         cases.append({"text": text, "config": [], "again": False, "lex": False})
         meta.append((pid, "unrestricted", 0, None, its))
+    # a selected item is formatted exactly as without a selection, whatever the UNSELECTED items before it declare (skip-name
+    # attributes, inner state of the visitor must not leak across an item that is merely copied)
+    leak_meta = {}
+    for si in range(nsyn // 3):
+        blocks = []
+        for k in range(rs.randint(3, 5)):
+            attr = rs.choice(["", "", "#[rustfmt::skip::macros(vec)]\n", "#[rustfmt::skip::macros(m)]\n", "#[rustfmt::skip::attributes(custom)]\n", "#[inline]\n", "#[rustfmt::skip::macros(vec, m)]\n"])
+            blocks.append(attr + "fn  f%d( ) {\n    let  x  =  vec![ 1,2 ] ;\n    m!( a  ,b );\n    #[custom(  x )]\n    let  y = 3 ;\n}" % k)
+        text = "\n\n".join(blocks) + "\n"
+        pid = "synthleak/%d" % si
+        spans, ln = [], 1
+        for b_ in blocks:
+            n_ = b_.count("\n") + 1
+            spans.append((ln, ln + n_ - 1))
+            ln += n_ + 1
+        leak_meta[pid] = (blocks, spans)
+        for k, (a, b) in enumerate(spans):
+            cases.append({"text": text, "config": [fl([(a, b)])], "again": False, "lex": False})
+            meta.append((pid, "leak", k, [(a, b)], []))
+        cases.append({"text": text, "config": [], "again": False, "lex": False})
+        meta.append((pid, "unrestricted", 0, None, []))
     # statements of a selected function: select one statement, the others must be emitted line for line
     STMTS = ["let  a%d=1 ;", "call%d( x,y ) ;", "if  a%d {\nb( ) ;\n}", "match x%d {\n1=>2 ,\n_=>3 ,\n}", "let v%d = vec![ 1,2 ,3 ] ;", "// note %d\nlet  z = ( 1 ) ;",
              "for i%d in 0 .. 3 {\nwork( i ) ;\n}", "let s%d = S{a:1,b:2} ;", "x%d . y( ) . z( ) ;", "unsafe  { p%d( ) }", "let c%d = | q | q+1 ;"]
@@ -321,6 +342,20 @@ def e2e(rep, tier, seed):
             n += 1
             out = r["out"]
             base = {"pool_id": pid, "selection": R, "variant": vi, "config": c["config"], "input": text, "out": out}
+            if name == "leak":
+                blocks, spans = leak_meta[pid]
+                ub = full[1]["out"].rstrip("\n").split("\n\n")
+                ob = out.rstrip("\n").split("\n\n")
+                if len(ub) == len(blocks) and len(ob) == len(blocks):
+                    for i, blk in enumerate(blocks):
+                        want_b = ub[i] if i == vi else blk
+                        if ob[i] != want_b:
+                            what_ = "the selected item is not formatted as without a selection" if i == vi else "an unselected item changed"
+                            if rep.violation("e2e_selected_item_differs_from_unrestricted" if i == vi else "e2e_unselected_item_changed:%s" % pid, dict(base, item_index=i, expected=want_b, got=ob[i]),
+                                             "%s: item %d of %s under selection %r: expected %r, got %r" % (what_, i, pid, R, want_b[:120], ob[i][:120])):
+                                found += 1
+                            break
+                continue
             if name == "gap":
                 for (l1, l2, lo, hi, kind) in items:
                     snippet = tb[lo:hi].decode("utf-8", "replace")
@@ -385,7 +420,7 @@ def e2e(rep, tier, seed):
                     break
     rep.coverage["e2e_runs_judged"] = n
     found += binary_selection(rep, tier, seed)
-    rep.coverage["e2e_rule"] = "pool source programs (thorough: all; quick: the 1/%d selected by the seed) x selections {one item exactly, a random window cutting through items, an empty range, a range past the end, no range, every line} and for the first two, two equivalent re-spellings (adjacent / overlapping pieces, an extra empty range, permuted): unselected top-level items byte for byte; synthetic functions of 3..6 badly formatted statements with one statement selected: every other statement line for line; one-line items ending in blanks / too wide with a random window selected: diagnostics only for lines inside it, lines outside unchanged; through the binary: the same selection given for a path and for stdin gives the same text, and a file not named in the selection is not written; empty selections change nothing; full selection = unrestricted; equal unions give equal text; runs of use / mod / extern crate declarations with blank, comment and attribute lines between them under every group_imports setting, with only such an in-between line selected: no declaration may change" % MOD
+    rep.coverage["e2e_rule"] = "pool source programs (thorough: all; quick: the 1/%d selected by the seed) x selections {one item exactly, a random window cutting through items, an empty range, a range past the end, no range, every line} and for the first two, two equivalent re-spellings (adjacent / overlapping pieces, an extra empty range, permuted): unselected top-level items byte for byte; synthetic functions of 3..6 badly formatted statements with one statement selected: every other statement line for line; one-line items ending in blanks / too wide with a random window selected: diagnostics only for lines inside it, lines outside unchanged; through the binary: the same selection given for a path and for stdin gives the same text, and a file not named in the selection is not written; empty selections change nothing; full selection = unrestricted; equal unions give equal text; runs of use / mod / extern crate declarations with blank, comment and attribute lines between them under every group_imports setting, with only such an in-between line selected: no declaration may change; 3..5 functions some of which carry rustfmt::skip::macros / skip::attributes declarations, each selected in turn: the selected one is formatted exactly as without a selection, the others are copied" % MOD
     return found
 
 
